@@ -526,8 +526,10 @@ fn run_case(case: &J) -> J {
                     }
                     "modifier_many" => {
                         let mut fm: FunctionModifier = module.functions.get_fn_modifier(fid).unwrap();
+                        // the bulk helper, with a run of two equal types followed by a different one
                         let before = fm.body.num_locals;
-                        fm.add_locals(&[ty]);
+                        let other = if ty == DataType::I64 { DataType::F32 } else { DataType::I64 };
+                        fm.add_locals(&[ty, ty, other]);
                         fm.args.len() as u32 + before
                     }
                     _ => {
